@@ -139,6 +139,11 @@ pub fn build(ctl: &'static Ctrl, params: &Value) -> Instance {
         actors.push(actor("d", false, move || {
             // (held at this point by a `hold` until the parker is done)
             may::verif::pt("pk.innocent", 0, 0, 0);
+            // (the hold gives way when nothing else can move: then the parker is stuck and there is no stack to inherit)
+            if !matches!(ctl.actor_state(0).0, crate::ctrl::ASt::Finished(_)) {
+                crate::run::bump("innocent_skipped_parker_alive");
+                return;
+            }
             std::thread::sleep(Duration::from_micros(300));
             let slot: Arc<StdMutex<Option<Arc<Blocker>>>> = Arc::new(StdMutex::new(None));
             let slot2 = slot.clone();
@@ -160,9 +165,12 @@ pub fn build(ctl: &'static Ctrl, params: &Value) -> Instance {
                 })
             };
             // let it really block first: a token set before the park would make it return without yielding
+            // (a point in the loop: the kernel side of the parker's last yield may still sit at a point on the
+            // worker whose event loop the innocent's socket needs)
             let t0 = std::time::Instant::now();
-            while slot.lock().unwrap().is_none() && t0.elapsed() < Duration::from_millis(200) {
-                std::thread::yield_now();
+            while slot.lock().unwrap().is_none() && t0.elapsed() < Duration::from_millis(2000) {
+                may::verif::pt("pk.dwait", 0, 0, 0);
+                std::thread::sleep(Duration::from_micros(200));
             }
             std::thread::sleep(Duration::from_millis(2));
             if let Some(b) = slot.lock().unwrap().clone() {
